@@ -272,8 +272,25 @@ func (g *Gen) zone(z Name, o Opts, depth int) {
 }
 
 // Generate builds a data file of the given class.
+// locSets: the location identifiers of one generated file (client A, client B, two foreign ones).
+// Identifiers are two arbitrary bytes: besides plain lower-case ones, foreign identifiers that
+// differ from a client's only by ASCII case, and binary ones whose second byte is a letter.
+var locSets = [][4]string{
+	{"ab", "cd", "ef", "aa"},
+	{"ab", "cd", "aB", "Ab"},
+	{"\x00a", "\x00b", "\x00A", "\x00B"},
+	{"AB", "Cd", "ab", "cd"},
+	{"\x01Z", "z\x01", "\x01z", "Z\x01"},
+}
+
+func pickLocs(r *hlib.Rng) {
+	s := locSets[r.Pick([]int{5, 2, 2, 1, 1})]
+	locA, locB, locF, locG = []byte(s[0]), []byte(s[1]), []byte(s[2]), []byte(s[3])
+}
+
 func Generate(r *hlib.Rng, class string, mtime int64) *Gen {
 	g := &Gen{R: r, Mtime: mtime, Types: map[int]bool{}}
+	pickLocs(r)
 	o := Opts{}
 	switch class {
 	case "empty":
